@@ -86,6 +86,9 @@ SessionVerdict(e) ==
 Verdict(e) ==
   CASE e.k = "session" -> SessionVerdict(e)
     [] e.k = "doc" -> [verdict |-> "VIOLATION", why |-> "a document of the model was rejected", detail |-> e.error]
+    \* the harness process hung or was taken down while evaluating this expression (no value, no error)
+    [] e.k = "crash" -> [verdict |-> "VIOLATION", why |-> "the evaluation hung or aborted the process: " \o e.how,
+                         spelling |-> e.expr]
     [] OTHER -> [verdict |-> "VIOLATION", why |-> "tool: unknown event kind"]
 
 \* (constant level: the recorded document and alphabet are substituted for CONSTANTS of XPathSession)
